@@ -138,6 +138,10 @@ impl C15 {
             epoch_config: Some(mantra_dex_std::epoch_manager::EpochConfig { duration: 90_000u64.into(), genesis_epoch: (now + 10).into() }),
         };
         cells.push(("em.cfg".into(), Box::new(move |s, f| Op::Em { sender: s.to_string(), msg: emc.clone(), funds: f }), Rule::Owner(a.em.clone()), false));
+        // configuration messages that change nothing are still the owner's alone (pm.cfg.empty above)
+        cells.push(("em.cfg.empty".into(), Box::new(move |s, f| Op::Em { sender: s.to_string(), msg: EmMsg::UpdateConfig { epoch_config: None }, funds: f }), Rule::Owner(a.em.clone()), false));
+        let none2 = none.clone();
+        cells.push(("fm.cfg.empty".into(), Box::new(move |s, f| Op::Fm { sender: s.to_string(), msg: none2.clone(), funds: f }), Rule::Owner(a.fm.clone()), false));
         // ownership actions on all contracts
         let cands = [a.stranger.clone(), a.owner2.clone()];
         for (ci, ct) in contracts.iter().enumerate() {
